@@ -165,6 +165,10 @@ class Check:
             "reader": ("SrcOReader.v", ["SrcReader_inst.v", "SrcReaderIter_inst.v"], "SrcReader_tables_inst.v",
                        ["RTCMReader.__init__", "RTCMReader.__next__", "RTCMReader.read", "RTCMReader._parse_ubx", "RTCMReader._parse_nmea", "RTCMReader._parse_rtcm3",
                         "RTCMReader._read_bytes", "RTCMReader._read_line", "RTCMReader._do_error", "RTCMReader.parse"]),
+            "msgdec": ("SrcOMsgDec.v", ["SrcMsgDecSingle_inst.v", "SrcMsgDecWalk_inst.v", "SrcMsgDecTop_inst.v", "SrcMsgDec_inst.v"], "SrcMsgDec_tables_inst.v",
+                       ["RTCMMessage.__init__", "RTCMMessage._do_attributes", "RTCMMessage._set_attribute", "RTCMMessage._set_attribute_optional",
+                        "RTCMMessage._set_attribute_group", "RTCMMessage._set_attribute_single", "RTCMMessage._getsatcellmaps", "RTCMMessage._get_dict",
+                        "RTCMMessage._do_unknown", "RTCMMessage.identity", "RTCMMessage.__setattr__"]),
             "helpers": ("SrcOHelpers.v", ["SrcHelpers_inst.v"], None, ["rtcmhelpers.att2idx", "rtcmhelpers.att2name", "rtcmhelpers.datadesc"]),
             "msg": ("SrcOMsg.v", ["SrcMsg_inst.v"], "SrcMsg_tables_inst.v",
                     ["RTCMMessage.__init__", "RTCMMessage.__setattr__", "RTCMMessage.identity", "RTCMMessage.payload", "RTCMMessage.ismsm",
@@ -307,9 +311,16 @@ class Check:
                 thms[cur] = []
                 inax = True
             elif inax:
-                mm = re.match(r"^([A-Za-z_][\w.']*)\s*:", ln)
+                mm = re.match(r"^([A-Za-z_][\w.']*)\s*:(.*)$", ln)
                 if mm:
-                    thms[cur].append(mm.group(1))
+                    name, ty = mm.group(1), mm.group(2)
+                    # a file that imports PrimFloat / Uint63 prints the primitives unqualified (mul, opp, of_uint63, float ...): recognise
+                    # them by their TYPE, which mentions nothing but the primitive types (a declared axiom about anything else does not)
+                    if "." not in name and re.fullmatch(r"[\s\w.>()-]*", ty) and ty.strip() and \
+                            set(re.findall(r"[A-Za-z_][\w.']*", ty)) <= {"float", "int", "bool", "Set", "PrimFloat.float", "PrimInt63.int", "Uint63.int",
+                                                                        "comparison", "float_comparison", "FloatOps.float_comparison", "PrimFloat.float_comparison"}:
+                        name = "PrimFloat." + name if "float" in ty else "PrimInt63." + name
+                    thms[cur].append(name)
         return {k: (v if v is not None else ["<no Print Assumptions output>"]) for k, v in thms.items()}
 
     # ------------------------------------------------------------ correspondence
